@@ -45,6 +45,7 @@ ASSUMPTIONS = [
     'population model: rejection)',
     'compositions with duplicate default names (KF-C17-dim-names-reset) are '
     'not generated here',
+    'the name / ID dataflow monitor of filter posteriors skips covariate-wrapped pooled / heterogeneous parts (open finding KF-C13-covariate-special-dims)',
 ]
 ANCHORS = [
     'chi._inference.SamplingController._format_chains',
